@@ -138,24 +138,28 @@ func (r *recorder) Abort(ctx context.Context, mod api.Module, def api.FunctionDe
 
 // Case is the replayable form.
 type Case struct {
-	Lib    *wasmgen.Module `json:"lib,omitempty"` // second module ("lib") whose exports Module imports (wasm-to-wasm calls)
-	Module *wasmgen.Module `json:"module"`
-	Script []runner.Call   `json:"script"`
-	Fuel   int32           `json:"fuel"`
-	Subset []uint32        `json:"subset,omitempty"` // listened wasm function indices (nil = all functions incl. host)
+	Lib      *wasmgen.Module `json:"lib,omitempty"` // second module ("lib") whose exports Module imports (wasm-to-wasm calls)
+	Module   *wasmgen.Module `json:"module"`
+	Script   []runner.Call   `json:"script"`
+	Fuel     int32           `json:"fuel"`
+	Subset   []uint32        `json:"subset,omitempty"`                 // listened wasm function indices (nil = all functions incl. host)
+	Multi    bool            `json:"multi_listener_factory,omitempty"` // two recorders combined by experimental.MultiFunctionListenerFactory
+	CloseCtx bool            `json:"close_on_context_done,omitempty"`  // runtime built WithCloseOnContextDone(true): termination checks at loop headers
 }
 
 type runResult struct {
-	tr     runner.Trace
-	perCal [][]Event  // events per script step (index 0 = instantiation)
-	enter  [][]string // cumulative global enter() reports "<module>.<index>"
-	hostlg [][]string // cumulative global host-call log
+	multiMsg string
+	tr       runner.Trace
+	perCal   [][]Event  // events per script step (index 0 = instantiation)
+	enter    [][]string // cumulative global enter() reports "<module>.<index>"
+	hostlg   [][]string // cumulative global host-call log
 }
 
 func run(engine string, c *Case, listen bool) runResult {
 	var res runResult
 	ctx := context.Background()
 	rec := &recorder{max: 200000}
+	var rec2 *recorder // second listener of a MultiFunctionListenerFactory: must see exactly what the first sees
 	if c.Subset != nil {
 		rec.subset = map[string]bool{}
 		for _, f := range c.Subset {
@@ -171,9 +175,18 @@ func run(engine string, c *Case, listen bool) runResult {
 	}
 	lctx := ctx
 	if listen {
-		lctx = experimental.WithFunctionListenerFactory(ctx, rec)
+		if c.Multi {
+			rec2 = &recorder{max: 200000, subset: rec.subset}
+			lctx = experimental.WithFunctionListenerFactory(ctx, experimental.MultiFunctionListenerFactory(rec, rec2))
+		} else {
+			lctx = experimental.WithFunctionListenerFactory(ctx, rec)
+		}
 	}
-	rt := wazero.NewRuntimeWithConfig(lctx, wz.Config(engine))
+	rcfg := wz.Config(engine)
+	if c.CloseCtx {
+		rcfg = rcfg.WithCloseOnContextDone(true)
+	}
+	rt := wazero.NewRuntimeWithConfig(lctx, rcfg)
 	defer rt.Close(ctx)
 	gl := &runner.GlobalLog{}
 	var inLib *runner.Inst
@@ -194,6 +207,9 @@ func run(engine string, c *Case, listen bool) runResult {
 			return res
 		}
 		rec.ev = nil // events of the library's own instantiation are not part of the case
+		if rec2 != nil {
+			rec2.ev = nil
+		}
 		gl.Entered, gl.Calls = nil, nil
 	}
 	s, err := runner.NewSession(lctx, rt, c.Module)
@@ -205,6 +221,21 @@ func run(engine string, c *Case, listen bool) runResult {
 	in := s.Instantiate(lctx, nil)
 	cut := func() {
 		res.perCal = append(res.perCal, rec.ev)
+		if rec2 != nil {
+			for k := 0; k < len(rec.ev) || k < len(rec2.ev); k++ {
+				x, y := "<none>", "<none>"
+				if k < len(rec.ev) {
+					x = rec.ev[k].String()
+				}
+				if k < len(rec2.ev) {
+					y = rec2.ev[k].String()
+				}
+				if x != y && res.multiMsg == "" {
+					res.multiMsg = fmt.Sprintf("the two listeners combined by MultiFunctionListenerFactory saw different events: #%d first=%s second=%s", k, x, y)
+				}
+			}
+			rec2.ev = nil
+		}
 		rec.ev = nil
 		res.enter = append(res.enter, append([]string{}, gl.Entered...))
 		res.hostlg = append(res.hostlg, append([]string{}, gl.Calls...))
@@ -401,6 +432,9 @@ func RunCase(c *Case) (string, []string, bool) {
 		if r.tr.HasKind(wz.KStack) {
 			return "", []string{"discarded-stack-overflow"}, false
 		}
+		if r.multiMsg != "" {
+			return fmt.Sprintf("%s: %s", eng, r.multiMsg), nil, false
+		}
 		plain := run(eng, c, false)
 		if d := runner.Diff(&plain.tr, &r.tr, "without-listeners", "with-listeners"); d != "" {
 			return fmt.Sprintf("listeners change the guest's behaviour on the %s: %s", eng, d), nil, false
@@ -491,6 +525,18 @@ func RunCase(c *Case) (string, []string, bool) {
 	if c.Lib != nil {
 		labels = append(labels, "cross-module-calls")
 	}
+	if c.CloseCtx {
+		labels = append(labels, "close-on-context-done")
+	}
+	if c.Multi {
+		labels = append(labels, "multi-listener-factory")
+	}
+	for _, l := range a.tr.HostLog {
+		if strings.HasPrefix(l, "closer(") {
+			labels = append(labels, "module-closed-by-host-mid-call")
+			break
+		}
+	}
 	if c.Module.Start >= 0 {
 		labels = append(labels, "start-function")
 	}
@@ -557,6 +603,8 @@ func prop(t *rapid.T) {
 	cfg.Enter = true
 	cfg.CallRich = true
 	cfg.FuelInit = 16 * 24 // at most 24 nested frames (the stack iterator / abort cap of 30 is a known finding)
+	closeCtx := rapid.IntRange(0, 2).Draw(t, "closectx") == 0
+	cfg.Closer = closeCtx || rapid.IntRange(0, 3).Draw(t, "closer") == 0
 	var lib *wasmgen.Module
 	if rapid.IntRange(0, 2).Draw(t, "withlib") == 0 {
 		lcfg := cfg
@@ -568,7 +616,7 @@ func prop(t *rapid.T) {
 		cfg.Lib, cfg.LibName = lib, "lib"
 	}
 	m := wasmgen.Generate(t, cfg)
-	c := &Case{Module: m, Lib: lib, Fuel: cfg.FuelInit}
+	c := &Case{Module: m, Lib: lib, Fuel: cfg.FuelInit, CloseCtx: closeCtx, Multi: rapid.IntRange(0, 3).Draw(t, "multi") == 0}
 	ex := m.Exports()
 	n := rapid.IntRange(1, 5).Draw(t, "ncalls")
 	for i := 0; i < n; i++ {
